@@ -14,6 +14,7 @@
    the theorems speak about the runs that return ([= Done _]); absence of panics is C03. *)
 From Coq Require Import ZArith.
 From CL Require Import Model.AnalysisSpec Proofs.AnalysisProofs.
+From CL Require Proofs.AnalysisValues.
 From CL Require Model.Lexer Model.Parser Model.EventBridge Proofs.ParserShape.
 
 (* the empty collector satisfies the invariant *)
@@ -158,6 +159,68 @@ Theorem C06_valid_decidable :
   forall ci_key tbl, valid_tbl_b ci_key tbl = true <-> valid_tbl ci_key tbl.
 Proof. exact valid_tbl_b_spec. Qed.
 Print Assumptions C06_valid_decidable.
+
+(* ---- what the tables hold of a quantity (Proofs/AnalysisValues.v).  Not a conjunct of the property: the
+   facts that make the recipe of this model carry the VALUES of the events, for every event sequence
+   (shaped or not), every extension record, every behaviour switch [cfg] and every oracle.
+   [qcols s] = the quantity columns of the three tables of the collector state; [igr_qty] / [cw_qty] /
+   [timer_qty] = the quantity of a component event as [quantity_info] / [value_info] read it. *)
+
+(* Quantity<ScalableValue>: the value inside Fixed / Linear is the event's value, the unit its trimmed text *)
+Theorem C06_quantity_value :
+  (forall b q, qi_value (quantity_info b q) = qv_value (pq_value q) /\
+               qi_unit (quantity_info b q) = option_map text_trimmed (pq_unit q)) /\
+  (forall b v, qi_value (value_info b v) = qv_value v).
+Proof. split; [intros b q; split; reflexivity | reflexivity]. Qed.
+Print Assumptions C06_quantity_value.
+
+(* one call of ingredient / cookware / timer: the entry it appends - at the index it returns, the one the
+   step item gets - holds the event's quantity whatever reference resolution decided, and no quantity
+   stored before changes (a back link is a relation only) *)
+Theorem C06_ingredient_value :
+  forall ci_key x s ig s' i,
+    ingredient ci_key x s ig = Done (s', i) ->
+    i = length (a_ingredients s) /\
+    AnalysisValues.qcols s'
+    = (map c_qty (a_ingredients s) ++ [AnalysisValues.igr_qty ig], map c_qty (a_cookware s), map tm_qty (a_timers s)).
+Proof. exact AnalysisValues.ingredient_value. Qed.
+Print Assumptions C06_ingredient_value.
+
+Theorem C06_cookware_value :
+  forall ci_key s cw s' i,
+    cookware ci_key s cw = Done (s', i) ->
+    i = length (a_cookware s) /\
+    AnalysisValues.qcols s'
+    = (map c_qty (a_ingredients s), map c_qty (a_cookware s) ++ [AnalysisValues.cw_qty cw], map tm_qty (a_timers s)).
+Proof. exact AnalysisValues.cookware_value. Qed.
+Print Assumptions C06_cookware_value.
+
+Theorem C06_timer_value :
+  forall unit_class x s t,
+    snd (timer unit_class x s t) = length (a_timers s) /\
+    AnalysisValues.qcols (fst (timer unit_class x s t))
+    = (map c_qty (a_ingredients s), map c_qty (a_cookware s), map tm_qty (a_timers s) ++ [AnalysisValues.timer_qty t]).
+Proof. exact AnalysisValues.timer_value. Qed.
+Print Assumptions C06_timer_value.
+
+(* every other event leaves the three columns alone *)
+Theorem C06_step_values :
+  forall ci_key yaml_ok find_iq unit_class input x cfg s e s',
+    step ci_key yaml_ok find_iq unit_class input x cfg s e = Done s' ->
+    AnalysisValues.qcols_step s e s'.
+Proof. exact AnalysisValues.step_values. Qed.
+Print Assumptions C06_step_values.
+
+(* hence every quantity of a returned recipe, valid or not, is the quantity - value, unit, fixed or linear -
+   of a component event of the stream *)
+Theorem C06_values_from_events :
+  forall ci_key yaml_ok find_iq unit_class input x cfg evs r v,
+    analyse ci_key yaml_ok find_iq unit_class input x cfg evs = Done (Some r, v) ->
+    Forall (fun c => exists ig, In (EIngredient ig) evs /\ c_qty c = AnalysisValues.igr_qty ig) (r_ingredients r) /\
+    Forall (fun c => exists cw, In (ECookware cw) evs /\ c_qty c = AnalysisValues.cw_qty cw) (r_cookware r) /\
+    Forall (fun t => exists pt, In (ETimer pt) evs /\ tm_qty t = AnalysisValues.timer_qty pt) (r_timers r).
+Proof. exact AnalysisValues.analyse_values. Qed.
+Print Assumptions C06_values_from_events.
 
 (* the statement is not vacuous: it accepts a recipe with a definition and a reference, and rejects a
    recipe for each of its conjuncts (index out of range, out of document order, missing back link,
